@@ -450,6 +450,8 @@ type OnCall struct {
 	Requires []*Clause
 	Effects  []Effect
 	Ensures  []*Clause
+	Havoc    bool
+	NoHavoc  bool
 	Returns  SExpr
 	Line     int
 }
@@ -856,6 +858,19 @@ func (db *ContractDB) loadFile(path, pkgPath string) {
 					}
 					curOn.Effects = append(curOn.Effects, ef)
 				}
+			case "havoc":
+				// inside `on call`: besides the declared effects the callee may change any object or byte region
+				if curOn == nil {
+					errf(l.no, "havoc outside 'on call'")
+					continue
+				}
+				curOn.Havoc = true
+			case "nohavoc":
+				if curOn == nil {
+					errf(l.no, "nohavoc outside 'on call'")
+					continue
+				}
+				curOn.NoHavoc = true
 			case "returns":
 				if curOn == nil {
 					errf(l.no, "returns outside 'on call'")
